@@ -53,6 +53,13 @@ CHECKS = {
                      "maximal length prefixes and zero-width element floods, in a 256 KiB-stack thread with default and caller-supplied max_stack_size; death by signal = stack "
                      "exhaustion; ledger peak must stay below 64 KiB + 8 KiB per input byte.",
                 note="Fixed module; depth bounded; heap constant deliberately generous; plain build for stack clause, ASan build for memory errors."),
+    "C07": dict(level="fault_enumeration", engine="vdriver", ref="DESIGN.md 4/C07",
+                technique="fault enumeration over encoder calls (callback failure index, buffer size, allocation failure) with ASan red zones and a return-value/errno monitor",
+                text="For valid, constraint-violating and walker-damaged structures and each of the five encoders: counting callback, callback failure at every "
+                     "invocation index (capped at 48), asn_encode_to_buffer into exact-size heap buffers of every size 0..n,n+1,n+7, asn_encode_to_new_buffer "
+                     "also under allocation failure; invariants on rc, errno, bytes delivered, NULL-on-failure, no crash/abort/hang; success on an invalid "
+                     "structure must decode back to an equal value.",
+                note="Structures reachable through BER decoding plus seven walker transformations; sizes sampled above 64 bytes; one fault per call."),
 }
 
 PENDING_REASON = "check not implemented yet (bring-up in progress; see DESIGN.md section 9)"
